@@ -65,6 +65,19 @@ MUTATIONS = [
                 "                    continue\n",
                 "            elif blockresponse.code != CONTINUE:\n                # final response ahead of the end of the body\n                break\n")],
     ),
+    # seeded/C05-seed3: is_valid_for_payload_size collapsed to "payloadsize % size == 0" for non-final blocks: a Block2
+    # follow-up block with M=1 and no payload is accepted and the same block asked for again (for ever if the server
+    # keeps doing it); caught only with the b2empty fault (once / repeated) of the reference server
+    (
+        "C05",
+        "empty-nonfinal-block2-accepted",
+        FIX + [(OT,
+                "            if self.is_bert:\n                if self.more:\n                    return payloadsize % 1024 == 0\n                return True\n"
+                "            else:\n                if self.more:\n                    return payloadsize == self.size\n                else:\n"
+                "                    return payloadsize <= self.size\n",
+                "            if not self.is_bert and payloadsize > self.size:\n                return False\n"
+                "            return not self.more or payloadsize % self.size == 0\n")],
+    ),
     ("C05", "extract-block-start-at-half-size", FIX + [(MSG, "            size = 2 ** (size_exp + 4)\n            start = number * size\n", "            size = 2 ** (size_exp + 4)\n            start = number << (size_exp + 3)\n")]),
 ]
 
